@@ -289,3 +289,31 @@ Example C18_parsed_literals_nonvacuous :
   parse_pipeline [I "update"; I "t"; I "set"; I "a"; O "="; N "007"; I "where"; I "b"; O "="; mkRaw RString "'y'" false]
     = POk (SUpdate "t" [("a", XLit (VInt 7))] (Some (EPred (XCol (mkCol "" "b")) CEq (XLit (VStr "y"))))).
 Proof. vm_compute. repeat split; reflexivity. Qed.
+
+(* ====================================================================================================
+   ORACLE vs. THEOREM, SELECT PART (Proofs/SelectOracle.v). The correspondence run judges what Go did
+   with sm_c18 (Spec/SelectObs.v): Go returned rows or an error value, not a panic and not a timeout.
+   hyp_c18 = parser_shape q && db_wf d, the hypotheses of C18_select_no_panic, is evaluated on every case.
+   Under it, agreement of the model with Go (mm_select) implies that the oracle accepts what Go did. *)
+From Mkdb Require Import Spec.SelectObs Proofs.SelectOracle.
+
+Theorem C18_select_agreement_implies_acceptance : forall c,
+  hyp_c18 c = true -> mm_select c = true -> sm_c18 c = true.
+Proof. exact c18_agreement_implies_acceptance. Qed.
+Print Assumptions C18_select_agreement_implies_acceptance.
+
+(* non-vacuity: the type-confused statement nv_q1 (Go: an error value) and nv_q2 (Go: rows) *)
+Example C18_select_agreement_nonvacuous :
+  let c1 := (nv_db, nv_q1, GErr Select.EIncompatTypeCompare) in
+  let c2 := (nv_db, nv_q2, GOk [("x", "k"); ("", "count(b)")] [[VInt 2; VInt 1]; [VInt 1; VInt 1]; [VNull; VInt 0]]) in
+  hyp_c18 c1 = true /\ mm_select c1 = true /\ sm_c18 c1 = true /\
+  hyp_c18 c2 = true /\ mm_select c2 = true /\ sm_c18 c2 = true.
+Proof. vm_compute. repeat split; reflexivity. Qed.
+
+(* the hypothesis is needed: outside it the model itself panics (C18_mixed_column_panics above), Go
+   agreeing with the model is then a panic, which the oracle rejects *)
+Example C18_select_agreement_needs_hyp :
+  let c := ([("t", ["a"], [[VInt 1]; [VStr "x"]])],
+            mkSelect [mkDC SPStar ""] [TRName "t" None] None [] [mkSort (mkCol "" "a") SAsc] false false 0 0, GPanic) in
+  hyp_c18 c = false /\ mm_select c = true /\ sm_c18 c = false.
+Proof. vm_compute. repeat split; reflexivity. Qed.
